@@ -365,7 +365,9 @@ def runStep (fuel : Nat) : Step → Cons → Ctx → Prog (Cons × Ctx)
     capBegin
     let (ic', x') ← runSteps fuel body c x
     let bytes ← capEnd
-    let c' := { c with state := ic'.state }
+    -- as in `capture`: the end-of-contents marker of this value is cut off if the closure read it
+    let bytes := if ic'.state = c.state then bytes else bytes.take (bytes.length - ic'.eoc)
+    let c' := { c with state := ic'.state, eoc := ic'.eoc }
     pure (c', { x' with reg := some (bytes, c.mode) }.emit ("C" ++ toHex bytes))
   | .capOne, c, x => do
     let (bytes, c') ← captureOne c fuel
